@@ -258,6 +258,14 @@ def run(ctx):
         for cmd in (cmds if not ctx.quick else rng.sample(cmds, 5) + ["dry", "stringly-typed"]):
             tg = rng.choice([["."], ["src"], sorted(proj)])
             cli_cases.append({"files": proj, "config": CONFIG, "cmd": cmd, "targets": tg, "id": "cli:n%d:%s" % (n, cmd), "n": n})
+    # overlapping targets: a file reached twice (a directory and a file in it, nested directories, the same path under two spellings) is linted
+    # twice by the sequential run - the parallel run must say the same
+    for j, n in enumerate([18, 40]):
+        proj = make_project(rng, n, "ov%d" % j)
+        srcs = sorted(f for f in proj if f.startswith("src/"))
+        for k, tg in enumerate([["src", srcs[0]], [".", "src"], [srcs[0], "./" + srcs[0], "src"], ["src", "src"]]):
+            cli_cases.append({"files": proj, "config": CONFIG, "cmd": rng.choice(["magic-numbers", "nesting", "improper-logging"]), "targets": tg,
+                              "id": "cli:overlapping-targets:%d:n%d" % (k, n), "n": n})
     cli_cases.append({"files": make_project(rng, 20, "cb"), "config": bad_cfg, "cmd": "nesting", "targets": ["."], "id": "cli:invalid-config", "n": 20})
     # explicit (command- or group-level) --config file that is empty / comments only, while the project root has its own settings
     for j, (level, content) in enumerate([("cmd", ""), ("cmd", "# nothing configured here\n"), ("group", "{}\n"), ("cmd", "{}")]):
